@@ -80,19 +80,19 @@ def gen_reconnect(rng, tier, i):
     T = plan['config']['ping_timeout']
     a['end'] = {'t': _gen.ticks(rng, 0.05, 0.4), 'how': 'close_packet'}
     b = {'open': rng.choice(['polling', 'polling', 'websocket']),
-         't_open': a['t_open'] + rng.randint(1, 8) * T,
+         't_open': a['t_open'] + rng.choice([1, 1, 1, 2, 2, 3, 4, 6]) * T,
          'poll': {'mode': 'auto', 'gap': 1}, 'upgrades': [],
          'pong': {'default': {'mode': 'prompt', 'delay': 1}}, 'msgs': [],
          'end': {'t': _gen.ticks(rng, 0.2, 1.5),
                  'how': rng.choice(['vanish', 'close_packet', 'vanish'])}}
-    if rng.random() < 0.5:
+    if rng.random() < 0.25:
         b['t_open'] += rng.choice([-1, 1]) * TICK
     plan['sessions'].append(b)
     plan['app'] = []
     plan['fixed_latency'] = 0
-    plan['line'] = {'mean': rng.choice([1, 2, 4]), 'max': 64,
+    plan['line'] = {'mean': rng.choice([2, 2, 4]), 'max': 64,
                     'focus': rng.choice([['_handle_connect'],
-                                         ['_service_task'],
+                                         ['_handle_connect'],
                                          ['_handle_connect',
                                           '_service_task']])}
     I = plan['config']['ping_interval']
@@ -101,7 +101,7 @@ def gen_reconnect(rng, tier, i):
 
 
 def gen(rng, tier, i):
-    if rng.random() < 0.04:
+    if rng.random() < 0.10:
         return gen_reconnect(rng, tier, i)
     return _gen_general(rng, tier, i)
 
